@@ -545,7 +545,8 @@ class MArr(_ModelObject):
         m = {}
         if isinstance(new_name_or_name_dict, dict):
             m.update(new_name_or_name_dict)
-        elif new_name_or_name_dict is not None:
+        elif new_name_or_name_dict is not None or not kw:
+            # xarray: rename(None) with no keyword sets the NAME to None
             return self._new(self.dims, self.sizes, self._elem, name=new_name_or_name_dict, tok=self.tok, view_of=self)
         m.update(kw)
         for a, b in m.items():
